@@ -24,7 +24,12 @@
 //!   (c) any other market event on i (stale / equal timestamp, liquidation, empty book): the statement
 //!       is silent => "still an allowed value" and est(current price) are both accepted
 //!   (d) an event on another instrument leaves pnl_unrealised of i unchanged ("until newer market data
-//!       arrives" - data of another instrument is not data for i)
+//!       arrives" - data of another instrument is not data for i) - or at a value the monitor allows for i
+//!       anyway (soundness round: the statement fixes the VALUE of i's estimate, not the moment the engine
+//!       writes it): one of i's allowed sources, or, after a fill that was not the newest thing i had seen,
+//!       the estimate at i's own current price (market data newer than that fill has already arrived; an
+//!       engine that heals such a position on the next market event of any instrument keeps the statement).
+//!       Never the estimate at ANOTHER instrument's price or at a price older than i's last fill.
 //!   (e) the pro-rata basis of the exit-fee estimate: the documented estimate charges the entry fees
 //!       pro rata of open quantity / MAXIMUM quantity the position has reached ("fees_enter was the fee
 //!       cost to enter a position of quantity_abs_max"). est() reads quantity_abs_max from the position;
@@ -223,6 +228,10 @@ struct Mon {
     max_t: Option<i64>,
     /// greatest |net| the open position has reached since it was opened (reference for rule (e))
     qmax: Decimal,
+    /// the last fill of the instrument was NOT the newest thing the instrument had seen (`fill-times`): market
+    /// data newer than that fill may already have arrived, so - until the next fill - the estimate at the
+    /// instrument's current price is an allowed value at ANY later moment, not only right after the fill
+    late_fill: bool,
 }
 
 #[derive(Clone)]
@@ -408,7 +417,8 @@ impl M {
             let Some(p) = self.position(&s.eng, j) else { continue };
             self.n.idle_event_checked.fetch_add(1, Ordering::Relaxed);
             let got = p.pnl_unrealised;
-            if got != b && !accepts(p, got, &s.mon[j].allowed) {
+            if !self.settled(s, j, b) {
+                let Some(p) = self.position(&s.eng, j) else { continue };
                 let cause = if self.price(&s.eng, j).is_some_and(|x| close_to(p, got, x)) { "re-marked-at-market-price" } else { "changed" };
                 out.push((
                     format!("C15/estimate-kept-until-newer-market-data/{kind}/{cause}"),
@@ -449,6 +459,30 @@ fn accepts(p: &Position<QuoteAsset, InstrumentIndex>, got: Decimal, allowed: &[S
         Src::ZeroAtOpen => got.is_zero(),
         Src::Observed(v) => got == v,
     })
+}
+
+impl M {
+    /// Rules (d) and (f): after an event that carries no fill and no market data FOR instrument j, the estimate
+    /// of j is where it was, or at one of the monitor's allowed sources, or - after a fill that was not the
+    /// newest thing j had seen - at j's current price (see `Mon::late_fill`). On acceptance of a changed value
+    /// the allowed sources are narrowed to those that explain it.
+    fn settled(&self, s: &mut St, j: usize, before: Decimal) -> bool {
+        let Some(p) = self.position(&s.eng, j) else { return true };
+        let got = p.pnl_unrealised;
+        if got == before {
+            return true;
+        }
+        let late = if s.mon[j].late_fill { self.price(&s.eng, j).filter(|x| close_to(p, got, *x)) } else { None };
+        if !accepts(p, got, &s.mon[j].allowed) && late.is_none() {
+            return false;
+        }
+        let mut keep: Vec<Src> = s.mon[j].allowed.iter().copied().filter(|a| accepts(p, got, &[*a])).collect();
+        if let (true, Some(x)) = (keep.is_empty(), late) {
+            keep.push(Src::Price(x));
+        }
+        s.mon[j].allowed = keep;
+        true
+    }
 }
 
 impl SeqModel for M {
@@ -682,9 +716,10 @@ impl SeqModel for M {
 
         // ---- (d) the other instrument's estimate is untouched
         for j in (0..self.driven.len()).filter(|j| *j != i) {
-            if let (Some(b), Some(p)) = (before_others[j], self.position(&s.eng, j)) {
+            if let (Some(b), true) = (before_others[j], self.position(&s.eng, j).is_some()) {
                 self.n.other_instrument_checked.fetch_add(1, Ordering::Relaxed);
-                if p.pnl_unrealised != b {
+                if !self.settled(s, j, b) {
+                    let Some(p) = self.position(&s.eng, j) else { continue };
                     let relation = if self.driven[i].2 == self.driven[j].2 { "same exchange" } else { "another exchange" };
                     out.push((
                         format!("C15/other-instrument-estimate-untouched/{}", if fill.is_some() { "fill" } else { "market-event" }),
@@ -748,6 +783,7 @@ impl SeqModel for M {
                     if let (true, Some(x)) = (fill_not_newest, price_now) {
                         mon.allowed.push(Src::Price(x));
                     }
+                    mon.late_fill = fill_not_newest && price_now.is_some();
                     self.n.fill_checked.fetch_add(1, Ordering::Relaxed);
                     let got = p.pnl_unrealised;
                     if opening && got.is_zero() && !close_to(p, got, f) {
@@ -787,6 +823,7 @@ impl SeqModel for M {
                 // nothing to judge; re-synchronise
                 other => {
                     mon.allowed.clear();
+                    mon.late_fill = false;
                     mon.net = match other {
                         Some(p) => {
                             mon.qmax = p.quantity_abs_max;
@@ -951,7 +988,7 @@ pub fn run(ctx: &Ctx) -> Outcome {
             "events that carry neither a fill nor market data (order snapshot, balance snapshot, stream Reconnecting, trading-state update) must leave pnl_unrealised of every open position unchanged or at a value the monitor already allows ('until newer market data arrives'); they never cause a position to be opened or closed in these runs".into(),
             "the receipt time of market data (time_received) is not part of the statement: in 'idle-events' it lies an hour after (trades) or a second before (books) the exchange time and the same rules apply".into(),
             "fills: price > 0, quantity > 0, fee >= 0 in the quote asset, fresh trade ids; market prices are finite positive numbers".into(),
-            "a fill stamped equal to / older than the greatest timestamp its instrument has seen must leave the estimate at the fill price or at the instrument's current price (newer market data may already have arrived); for a fill that is the newest event only the fill price is accepted".into(),
+            "a fill stamped equal to / older than the greatest timestamp its instrument has seen must leave the estimate at the fill price or at the instrument's current price (newer market data may already have arrived), and until the next fill the engine may move it from the former to the latter at any event (rules d and f accept that move); for a fill that is the newest event only the fill price is accepted".into(),
             "the instrument's current price is what the real InstrumentDataState::price() reports after the event (DefaultInstrumentMarketData: L1 volume-weighted mid, else last trade)".into(),
             "a market event 'yields a price' for certain only if it is a trade or two-sided L1 strictly newer (exchange time) than every market event and fill the instrument has seen; for every other market event both 'unchanged' and 'estimate at the current price' are accepted".into(),
             "the estimate is recomputed from the position's own side, quantity, entry average and entry fees (C02 judges those); the pro-rata basis quantity_abs_max is compared with the maximum |net filled quantity| of the position's life (documented meaning of the field)".into(),
